@@ -147,7 +147,7 @@ theorem parse_opt_loop_eq (p : Bytes) (fuel : Nat) (s : Sector)
       obtain ⟨hfr, e, he, hlo, hhi⟩ := ednsSkipRr_ok hs
       have hc : s.ednsCount + 1 < 65536 := by
         simp only [he] at hb; omega
-      simp only [Tr.Sector.checked, hc, if_true, Res.bind_ok]
+      simp only [Tr.checked, hc, if_true, Res.bind_ok]
       have := ih { s1 with ednsCount := s1.ednsCount + 1 } (by
         rw [hfr]; simp only [he] at hb ⊢; omega)
       rw [hfr] at this ⊢
